@@ -23,3 +23,33 @@ chk('C07',
     'Trusted: ref/hp.py + ref/kin.py; dtype contract demanded only where the existing tests pin it; single-precision domain predicate excludes inputs whose needed powers leave 1e-30..1e30.',
     'explicit enumeration of the unit x dtype grid on the real kernels; 50-digit reference model',
     'DESIGN.md section 6 C07')
+chk('C03',
+    'Full product of beam directions x norms (1e-6..1e6) x base angles {0, pi/2, pi} with offsets down to 1e-12 x length units, scalar and per-pixel, under the 24 exact cube rotations, generic rotations, exact/inexact translations and power-of-two rescaling; beams, L1, L2, Ltotal and 2theta compared with 50-digit Euclidean definitions (2theta to 5e-15 rad), symmetry and invariances checked bitwise where exact.',
+    'Trusted: ref/geom.py on ref/hp.py; finite grid; float32 vectors do not exist in scipp.',
+    'explicit enumeration of geometry grid on the real kernels, accessors and graphs; 50-digit reference model',
+    'DESIGN.md section 6 C03')
+chk('C04',
+    'Full product of incident tilt (0, both sides of the 1e-10 dispatch threshold in every unit, up to 1 rad, both signs) x gravity magnitudes/directions/frames x 14 detector directions x L2 x wavelengths 0..100 A in dense/2-d/binned layouts and both dtypes; 2theta and phi compared with the documented construction at 50 digits on both code paths, plus continuity in the tilt, the lambda->0 / g->0 limits, the sign for detectors above a horizontal beam, and the reflectometry variant incl. its refusals.',
+    'Trusted: ref/gravity.py on ref/hp.py; tolerance 1e-12 rad (f64) / 2e-6 (f32) plus the documented O(tilt) equivalence below the dispatch threshold.',
+    'explicit enumeration of configuration grid on the real kernels (both code paths); 50-digit reference model',
+    'DESIGN.md section 6 C04')
+chk('C08',
+    'Full product of beam directions x lengths x wavelengths x rotations R,U (24 cube + generic) x B matrices up to condition 1e6, scalar and array operands: Q_vec vs (2pi/lambda)(e_i-e_f) at 50 digits, |Q_vec| vs scalar Q, beam-length independence, covariance under rotations, residual of 2pi R UB hkl = Q scaled by the condition number, UB = U*B, split/reassemble bitwise, and the coordinate-graph route.',
+    'Trusted: ref/qvec.py on ref/hp.py; hkl tolerance 64 eps cond(R UB).',
+    'explicit enumeration of configuration grid on the real kernels; 50-digit reference model',
+    'DESIGN.md section 6 C08')
+chk('C14',
+    'Exhaustive enumeration of documents: every string of a 45-value alphabet (all CIF lexical hazards) alone and in all ordered pairs, all small loops, numeric loops 1..50 x 1..6 with/without variances, blocks of chunks/loops with comments, multi-block files, and every builder call sequence up to depth 3 (authors/roles, beamline, reducers, data, calibration, copy, save twice); each text parsed by an independent CIF 1.1 parser and compared with what was supplied (tags, values, shapes, order, su = sqrt(variance), ids, ASCII).',
+    'Trusted: ref/cifparse.py (CIF 1.1 grammar from the IUCr spec, self-tested on hand-written documents); strings <= 300 chars; refusal accepted for values CIF 1.1 cannot represent.',
+    'explicit enumeration of documents and builder-call programs on the real writer; independent CIF 1.1 parser as reference model',
+    'DESIGN.md section 6 C14')
+chk('C16',
+    'Full product of amplitude x location x scale (1e-6..1e6) x fraction for the three peak shapes, polynomial degree 1..6 x coefficient sets, prefixes, units and composites: integral (tan-substitution quadrature, 4096 nodes), symmetry at exact dyadic offsets, half maximum at the reported FWHM, polynomial vs 50-digit power sum, composite = sum of parts bitwise, prefix independence, result units, refusals.',
+    'Trusted: ref/peakshape.py; tolerance 1e-12 + conditioning of x - mu.',
+    'explicit enumeration of parameter grid on the real models; analytic/50-digit reference model',
+    'DESIGN.md section 6 C16')
+chk('C17',
+    'Exhaustive scenario enumeration (1..3 peaks, thorough 6; shapes x widths x backgrounds; estimates exact/shifted/at edges/outside; scalar window widths from 0 to full range and explicit windows incl. empty; all model spec forms) on deterministic spectra: one result per estimate without raising, too-narrow windows classified, statistics recomputed independently, requirement table for successes, automatic window rules, independence of other peaks (bitwise), removal = input minus fitted peak only inside successful windows.',
+    'Trusted: ref/peakfit.py (closed forms, fixed Weyl-sequence noise); scipy chi2; AIC convention of the code; uniform and mildly non-uniform grids only.',
+    'explicit enumeration of fitting scenarios on the real fit_peaks/remove_peaks; independent recomputation as reference model',
+    'DESIGN.md section 6 C17')
